@@ -6,6 +6,7 @@
 -/
 import PydapModel.Handler
 import Proofs.Handler
+import Proofs.Arrayterator
 namespace Pydap.Handler
 open Pydap
 
@@ -288,20 +289,7 @@ theorem collect1Core_wf' (src : Dataset) (hsrc : src.WF) (out out' : List Var) (
         · rename_i a ms ho
           have hg : a.WF ∧ ∀ m ∈ ms, m.WF := hout _ (findVar_mem ho)
           split at h
-          · rename_i b
-            split at h
-            · split at h
-              · simp only [Except.ok.injEq] at h; subst h; exact hout
-              · rename_i m0 rest
-                simp only [Except.ok.injEq] at h; subst h
-                refine map_replace_wf' out _ _ hout ⟨hg.2 m0 (by simp), ?_⟩
-                intro x hx
-                simp only [List.mem_append, List.mem_singleton] at hx
-                rcases hx with hx | rfl
-                · exact hg.2 x (by simp [hx])
-                · exact hbwf
-            · simp only [Except.ok.injEq] at h; subst h
-              exact map_replace_wf' out _ _ hout ⟨hg.1, setBase_wf hg.2 hbwf⟩
+          · simp only [Except.ok.injEq] at h; subst h; exact hout
           · simp at h
         · simp at h
   · -- three parts: a member of a structure nested in a structure
